@@ -528,7 +528,191 @@ theorem load_spec (cb : Nat → Value → Bool) (t1 : Table) (hord : Ordered (en
           · cases code <;> first | exact absurd rfl hc | rfl
           · cases code <;> first | exact absurd rfl hc | rfl
 
+/-! ### what the areas record -/
+
+theorem takeWhile_spec {α : Type} (p : α → Bool) : ∀ (l : List α),
+    (∀ i x, i < (l.takeWhile p).length → l[i]? = some x → p x = true) ∧
+    (∀ x, l[(l.takeWhile p).length]? = some x → p x = false) := by
+  intro l
+  induction l with
+  | nil => simp
+  | cons a r ih =>
+    by_cases hp : p a = true
+    · simp only [List.takeWhile_cons, hp, ↓reduceIte, List.length_cons]
+      refine ⟨?_, ?_⟩
+      · intro i x hi hx
+        cases i with
+        | zero => simp only [List.getElem?_cons_zero, Option.some.injEq] at hx; subst hx; exact hp
+        | succ i => simp only [List.getElem?_cons_succ] at hx; exact ih.1 i x (by omega) hx
+      · intro x hx
+        simp only [List.getElem?_cons_succ] at hx
+        exact ih.2 x hx
+    · simp only [List.takeWhile_cons, hp, Bool.false_eq_true, ↓reduceIte, List.length_nil]
+      refine ⟨fun i x hi => absurd hi (by omega), ?_⟩
+      intro x hx
+      simp only [List.getElem?_cons_zero, Option.some.injEq] at hx
+      subst hx
+      simpa using hp
+
+/-- area `b` records exactly the registers of `es` whose address lies in it: `count` of them, the contiguous run
+    `first .. last` (all three zero when there is none) -/
+def Records (es : List Entry) (b : Area) : Prop :=
+  (∀ (j : Nat) (e : Entry), es[j]? = some e → (ra_addr_is_part_of b e.address = true ↔ (b.count ≠ 0 ∧ b.first ≤ j ∧ j ≤ b.last))) ∧
+  (b.count ≠ 0 → b.last + 1 = b.first + b.count) ∧ (b.count = 0 → b.first = 0 ∧ b.last = 0)
+
+theorem linkAreas_records (es : List Entry)
+    (hasc : ∀ (i j : Nat) (e e' : Entry), i < j → es[i]? = some e → es[j]? = some e' → e.address < e'.address) :
+    ∀ (areas : List Area) (n : Nat), areas.Pairwise (fun a b => a.base + a.size ≤ b.base) →
+      (∀ (j : Nat) (e : Entry), es[j]? = some e → j < n → ∀ a ∈ areas, ra_addr_is_part_of a e.address = false) →
+      (∀ (j : Nat) (e : Entry), es[j]? = some e → n ≤ j → ∃ a ∈ areas, ra_addr_is_part_of a e.address = true) →
+      ∀ (k : Nat) (b : Area), (linkAreas es areas n)[k]? = some b → Records es b := by
+  intro areas
+  induction areas with
+  | nil => intro n _ _ _ k b h; simp [linkAreas] at h
+  | cons a rest ih =>
+    intro n hpw h1 h2 k b hb
+    have hpw' := (List.pairwise_cons.mp hpw)
+    -- a register that lies in a later area lies behind `a`
+    have later : ∀ x : Nat, (∃ a' ∈ rest, ra_addr_is_part_of a' x = true) → a.base + a.size ≤ x := by
+      intro x ⟨a', ha', hx⟩
+      have := hpw'.1 a' ha'
+      simp only [ra_addr_is_part_of, Bool.and_eq_true, decide_eq_true_eq] at hx
+      omega
+    have notin : ∀ x : Nat, a.base + a.size ≤ x → ra_addr_is_part_of a x = false := by
+      intro x hx
+      simp only [ra_addr_is_part_of, Bool.and_eq_false_imp, decide_eq_true_eq, decide_eq_false_iff_not]
+      intro _; omega
+    have inrest : ∀ j e, es[j]? = some e → n ≤ j → ra_addr_is_part_of a e.address = false →
+        ∃ a' ∈ rest, ra_addr_is_part_of a' e.address = true := by
+      intro j e he hj hna
+      obtain ⟨a', ha', hp⟩ := h2 j e he hj
+      rcases List.mem_cons.mp ha' with rfl | ha'
+      · rw [hna] at hp; simp at hp
+      · exact ⟨a', ha', hp⟩
+    simp only [linkAreas] at hb
+    cases hn : es[n]? with
+    | none =>
+      simp only [hn] at hb
+      have hnl : es.length ≤ n := by
+        rcases Nat.lt_or_ge n es.length with h | h
+        · rw [List.getElem?_eq_getElem h] at hn; simp at hn
+        · exact h
+      cases k with
+      | zero =>
+        simp only [List.getElem?_cons_zero, Option.some.injEq] at hb
+        subst hb
+        refine ⟨?_, by simp, by simp⟩
+        intro j e he
+        have hj : j < n := by have := getElem?_lt _ _ _ he; omega
+        have := h1 j e he hj a List.mem_cons_self
+        simp only [ra_addr_is_part_of] at this ⊢
+        simp [this]
+      | succ k =>
+        simp only [List.getElem?_cons_succ] at hb
+        exact ih n hpw'.2 (fun j e he hj a' ha' => h1 j e he hj a' (List.mem_cons_of_mem _ ha'))
+          (fun j e he hj => by have := getElem?_lt _ _ _ he; omega) k b hb
+    | some e0 =>
+      simp only [hn] at hb
+      by_cases hp0 : ra_addr_is_part_of a e0.address = true
+      · simp only [hp0, ↓reduceIte] at hb
+        have tw := takeWhile_spec (fun x : Entry => ra_addr_is_part_of a x.address) (es.drop (n + 1))
+        generalize hrun : ((es.drop (n + 1)).takeWhile fun x => ra_addr_is_part_of a x.address).length = run at hb tw
+        -- the run [n, n + 1 + run) lies in `a`, what follows does not
+        have inrun : ∀ j e, es[j]? = some e → n ≤ j → j < n + 1 + run → ra_addr_is_part_of a e.address = true := by
+          intro j e he hj1 hj2
+          by_cases hjn : j = n
+          · subst hjn; rw [hn] at he; have := Option.some.inj he; subst this; exact hp0
+          · apply tw.1 (j - (n + 1)) e (by omega)
+            rw [List.getElem?_drop]
+            have : n + 1 + (j - (n + 1)) = j := by omega
+            rw [this]; exact he
+        have stop : ∀ e, es[n + 1 + run]? = some e → ra_addr_is_part_of a e.address = false := by
+          intro e he
+          apply tw.2 e
+          rw [List.getElem?_drop]; exact he
+        have after : ∀ j e, es[j]? = some e → n + 1 + run ≤ j → ra_addr_is_part_of a e.address = false := by
+          intro j e he hj
+          have hjl := getElem?_lt _ _ _ he
+          have hsl : n + 1 + run < es.length := by omega
+          have hs := stop es[n + 1 + run] (List.getElem?_eq_getElem hsl)
+          have hge := later _ (inrest (n + 1 + run) _ (List.getElem?_eq_getElem hsl) (by omega) hs)
+          by_cases hjs : j = n + 1 + run
+          · subst hjs
+            rw [List.getElem?_eq_getElem hsl] at he; have := Option.some.inj he; subst this; exact hs
+          · have := hasc (n + 1 + run) j _ e (by omega) (List.getElem?_eq_getElem hsl) he
+            exact notin _ (by omega)
+        cases k with
+        | zero =>
+          simp only [List.getElem?_cons_zero, Option.some.injEq] at hb
+          subst hb
+          refine ⟨?_, by simp; omega, by simp; omega⟩
+          intro j e he
+          simp only
+          constructor
+          · intro hp
+            have hp' : ra_addr_is_part_of a e.address = true := hp
+            refine ⟨by omega, ?_, ?_⟩
+            · rcases Nat.lt_or_ge j n with h | h
+              · have := h1 j e he h a List.mem_cons_self; rw [this] at hp'; simp at hp'
+              · exact h
+            · rcases Nat.lt_or_ge j (n + 1 + run) with h | h
+              · omega
+              · have := after j e he h; rw [this] at hp'; simp at hp'
+          · intro ⟨_, hj1, hj2⟩
+            exact inrun j e he hj1 (by omega)
+        | succ k =>
+          simp only [List.getElem?_cons_succ] at hb
+          refine ih (n + 1 + run) hpw'.2 ?_ ?_ k b hb
+          · intro j e he hj a' ha'
+            rcases Nat.lt_or_ge j n with h | h
+            · exact h1 j e he h a' (List.mem_cons_of_mem _ ha')
+            · have hp := inrun j e he h hj
+              have := hpw'.1 a' ha'
+              simp only [ra_addr_is_part_of, Bool.and_eq_true, decide_eq_true_eq] at hp
+              simp only [ra_addr_is_part_of, Bool.and_eq_false_imp, decide_eq_true_eq, decide_eq_false_iff_not]
+              intro _; omega
+          · intro j e he hj
+            exact inrest j e he (by omega) (after j e he hj)
+      · have hp0' : ra_addr_is_part_of a e0.address = false := by simpa using hp0
+        simp only [hp0', Bool.false_eq_true, ↓reduceIte] at hb
+        have hge0 := later _ (inrest n e0 hn (Nat.le_refl _) hp0')
+        have after : ∀ j e, es[j]? = some e → n ≤ j → ra_addr_is_part_of a e.address = false := by
+          intro j e he hj
+          by_cases hjn : j = n
+          · subst hjn; rw [hn] at he; have := Option.some.inj he; subst this; exact hp0'
+          · have := hasc n j e0 e (by omega) hn he
+            exact notin _ (by omega)
+        cases k with
+        | zero =>
+          simp only [List.getElem?_cons_zero, Option.some.injEq] at hb
+          subst hb
+          refine ⟨?_, by simp, by simp⟩
+          intro j e he
+          have : ra_addr_is_part_of a e.address = false := by
+            rcases Nat.lt_or_ge j n with h | h
+            · exact h1 j e he h a List.mem_cons_self
+            · exact after j e he h
+          simp only [ra_addr_is_part_of] at this ⊢
+          simp [this]
+        | succ k =>
+          simp only [List.getElem?_cons_succ] at hb
+          exact ih n hpw'.2 (fun j e he hj a' ha' => h1 j e he hj a' (List.mem_cons_of_mem _ ha'))
+            (fun j e he hj => inrest j e he hj (after j e he hj)) k b hb
+
+theorem areaGeo_strip (t t1 : Table) (h : t.areas.map strip = t1.areas.map strip) : areaGeo t = areaGeo t1 := by
+  have e : ∀ l : List Area, l.map (fun a => (a.base, a.size)) = (l.map strip).map (fun a => (a.base, a.size)) := by
+    intro l; simp [List.map_map, Function.comp_def, strip]
+  simp only [areaGeo]
+  rw [e t.areas, e t1.areas, h]
+
+theorem ordered_areas_pairwise (t : Table) (h : Ordered (areaGeo t)) :
+    t.areas.Pairwise (fun a b => a.base + a.size ≤ b.base) := by
+  rw [ordered_pairwise, areaGeo, List.pairwise_map] at h
+  exact h
+
 end Ufw.Lemmas.RegInit
+
+
 
 
 
